@@ -23,6 +23,11 @@ STATE = {"last_in": None, "calls": 0}
 
 def install(ctx):
     pt = harness.repo()["pt"]
+    if not hasattr(pt, "prettyPrint"):
+        # the internal helper was renamed/inlined: the wrapper is unattached; the boundary oracles decide
+        # (printed documents must parse and equal the encoder's model / the in-process decode)
+        ctx.count("unattached.prettyPrint")
+        return None
     orig = pt.prettyPrint
 
     def prettyPrint(Mdata, desiredSpace=34, *a, **k):
@@ -127,7 +132,9 @@ def plan(tier, seed):
     return specs
 
 
-def minimums(tier):
+def minimums(tier, counters=None):
+    if counters and counters.get("unattached.prettyPrint"):
+        return {"boundary.model_compared": 5000, "cli.stdout_parsed": 100, "cli.json_files_parsed": 20}
     return {"prettyPrint.checked": 20000, "prettyPrint.calls.width34": 15000, "prettyPrint.calls.width29": 40,
             "cli.stdout_parsed": 100, "cli.json_files_parsed": 20, "hostile.colon_quote_in_string": 1000}
 
@@ -135,11 +142,13 @@ def minimums(tier):
 def run(spec, ctx):
     harness.repo()
     pt = harness.repo()["pt"]
-    install(ctx)
+    attached = install(ctx) is not None
     rng = random.Random(spec["rseed"])
     u = pm.Uniq(spec["shard"] * 10_000_000)
     reg = harness.registry_model()
     if spec["mode"] == "docs":
+        if not attached:
+            return
         for i in range(spec["n"]):
             doc = gen_doc(rng)
             if not isinstance(doc, (dict, list)):
@@ -162,6 +171,22 @@ def run(spec, ctx):
             ctx.case(data, True, sample={"sections": [s.kind for s in pel.sections]} if i < 2 else None)
             before = STATE["calls"]
             o = harness.decode(data)
+            if o.kind == "doc" and not attached:
+                # boundary oracle: every displayed value must equal the encoder's model (strings with hostile characters
+                # in text fields, JSON/text user data, plugin output)
+                from vf.props import fidelity
+                if o.doc is None:
+                    ctx.violation("C06/decode-output-not-json", "parsePEL returned text that does not parse", data=data)
+                else:
+                    names = [k for k, _ in o.pairs]
+                    if names == pel.names():
+                        for (name, _), sec in zip(o.pairs, pel.all_sections()):
+                            probs = []
+                            pm.check_entry(o.doc[name], sec, probs, name)
+                            ctx.count("boundary.model_compared")
+                            for key, msg in probs:
+                                ctx.violation("C06/printed-value-differs-from-log", msg, data=data)
+                continue
             if o.kind == "doc":
                 if STATE["calls"] == before:
                     ctx.count("prettyPrint.bypassed")
@@ -207,9 +232,9 @@ def run(spec, ctx):
             except ValueError as e:
                 ctx.violation("C06/cli-stdout-not-json", "stdout of peltool %s does not parse: %s" % (argv[2:], e), stdout=out[:3000])
                 continue
-            if argv[0] == "-f" and doc != STATE["last_in"]:
+            if attached and argv[0] == "-f" and doc != STATE["last_in"]:
                 ctx.violation("C06/cli-document-differs", "-f printed a document different from the decoded one")
-            if "-l" in argv or "--src" in argv or "--plid" in argv:
+            if attached and ("-l" in argv or "--src" in argv or "--plid" in argv):
                 if doc != STATE["last_in"]:
                     ctx.violation("C06/cli-list-differs", "%s printed a list different from the summary it built" % argv[2:])
         d.remove()
